@@ -64,6 +64,8 @@ def gen(tier, seed):
     for spec in ({'conv': 'cf1d', 'ny': 3, 'nx': 4}, {'conv': 'cf2d', 'ny': 3, 'nx': 4, 'bounds': 'vars', 'holes': [[0, 1], [1, 1]]},
                  {'conv': 'shoc_standard', 'ny': 3, 'nx': 3, 'node_holes': [[0, 0]]}, {'conv': 'ugrid', 'ny': 2, 'nx': 3, 'split': [[0, 0]], 'merge': [[1, 0]]}):
         yield {'kind': 'dataset', 'spec': spec}
+    # the same vertex stored once as -0.0 and once as +0.0 (independently written cell bounds): one vertex, not two
+    yield {'kind': 'signed-zero'}
     # holes before a concave cell (grid whose bounds are edited: cell (1, 2) becomes a dart, cells (0, 1) and (1, 0) have no geometry)
     for dart_rot in (0, 1, 2, 3):
         yield {'kind': 'grid-dart', 'rot': dart_rot}
@@ -76,6 +78,16 @@ def build(inp):
         return datasets.ugrid(mesh=(nx, ny, faces), extra=False, fill='int_fill')
     if inp['kind'] == 'dataset':
         return datasets.build(inp['spec'])
+    if inp['kind'] == 'signed-zero':
+        ds = datasets.build({'conv': 'cf1d', 'ny': 2, 'nx': 3, 'bounds': 'vars'})
+        lb = ds['lon_bnds'].values.copy()
+        e = lb[0, 1]
+        lb = lb - e
+        lb[0, 1], lb[1, 0] = -0.0, 0.0
+        lon = ds['lon'].values - e
+        ds = ds.assign_coords(lon=('lon', lon, ds['lon'].attrs))
+        ds['lon_bnds'] = (ds['lon_bnds'].dims, lb, ds['lon_bnds'].attrs)
+        return ds
     ds = datasets.cf2d(3, 4, bounds='vars', holes=((0, 1), (1, 0)), skew=0.0)
     ring = place(SHAPES['dart'], 0, False, inp['rot'], scale=0.2)
     lon_b, lat_b = ds['lon_bnds'].values.copy(), ds['lat_bnds'].values.copy()
